@@ -503,7 +503,67 @@ def normalise(trees, protected):
             break
         if not one.startswith("~"):
             done.append(one)
+    if done:
+        for mn in sorted(trees):
+            _fold_dead(trees[mn])
     return done
+
+
+def _const_truth(t):
+    """True / False when the test is decided by constants alone (a defaulted parameter that was substituted), else None."""
+    if isinstance(t, ast.Constant):
+        return bool(t.value)
+    if isinstance(t, ast.UnaryOp) and isinstance(t.op, ast.Not):
+        v = _const_truth(t.operand)
+        return None if v is None else (not v)
+    if isinstance(t, ast.Compare) and len(t.ops) == 1 and isinstance(t.left, ast.Constant) and isinstance(t.comparators[0], ast.Constant):
+        a, b, op = t.left.value, t.comparators[0].value, t.ops[0]
+        if isinstance(op, ast.Is):
+            return a is b if (a is None or b is None or isinstance(a, bool) or isinstance(b, bool)) else None
+        if isinstance(op, ast.IsNot):
+            return a is not b if (a is None or b is None or isinstance(a, bool) or isinstance(b, bool)) else None
+        try:
+            if isinstance(op, ast.Eq):
+                return a == b
+            if isinstance(op, ast.NotEq):
+                return a != b
+        except Exception:
+            return None
+    if isinstance(t, ast.BoolOp):
+        vals = [_const_truth(v) for v in t.values]
+        if isinstance(t.op, ast.And):
+            if any(v is False for v in vals):
+                return False
+            return True if all(v is True for v in vals) else None
+        if any(v is True for v in vals):
+            return True
+        return False if all(v is False for v in vals) else None
+    return None
+
+
+def _fold_dead(tree):
+    """`if <decided by constants>:` keeps only the arm that runs (inlining a helper with a defaulted parameter leaves such tests)."""
+    changed = True
+    while changed:
+        changed = False
+        for holder in ast.walk(tree):
+            for fname in ("body", "orelse", "finalbody"):
+                lst = getattr(holder, fname, None)
+                if not isinstance(lst, list):
+                    continue
+                for i, st in enumerate(lst):
+                    if isinstance(st, ast.If):
+                        v = _const_truth(st.test)
+                        if v is None:
+                            continue
+                        live = st.body if v else st.orelse
+                        lst[i:i + 1] = live if live or len(lst) > 1 else [ast.copy_location(ast.Pass(), st)]
+                        changed = True
+                        break
+                if changed:
+                    break
+            if changed:
+                break
 
 
 def _one_pass(trees, protected):
